@@ -74,6 +74,7 @@ type Contract struct {
 	Forbids    []string    // forbids A, B: the function calls none of these (it runs with a lock they take)
 	NoReentrantLock bool   // noreentrantlock: no call of a locking method of the same receiver while the mutex may be held
 	Handled    []HandledClause // received F handledby A, B: every value taken from channel field F reaches a call of A or B
+	PrecededBy [][2]string // precededby A B: every call of A is dominated by a call of B
 	HasErrorsFrom bool
 	UsesAtCall bool // some clause mentions atcall(...): call-site states are recorded
 	RecvNonNil bool
@@ -348,6 +349,16 @@ func ParseSpecFile(path string, pkgName string) (*SpecFile, error) {
 					}
 				}
 				cur.Handled = append(cur.Handled, hc)
+			}
+		case "precededby":
+			// precededby A B: every call of A (a callee or builtin name) is dominated by a
+			// call of B — on every path that reaches the call of A, B has been called
+			// before (in the same iteration, when both sit in a loop)
+			f := strings.Fields(rest)
+			if len(f) != 2 {
+				errs = append(errs, fmt.Sprintf("%s:%d: precededby <callee> <callee>", path, ln))
+			} else {
+				cur.PrecededBy = append(cur.PrecededBy, [2]string{f[0], f[1]})
 			}
 		case "releaseslock":
 			// no path returns while a sync.Mutex / RWMutex write lock that the function
